@@ -29,9 +29,9 @@ A_SEQ = 'sequential view of Mutex/RwLock (prelude/sync.rs): a lock yields the va
 PROPS['C12'] = dict(
     level='proof',
     composition='Verus lemmas L4: lemma_single_byte_damage_detected / lemma_hash_field_damage_detected (meta unit, from the proved FNV-1a sensitivity lemmas), lemma_fallback_to_intact_slot / lemma_newest_wins (db unit)',
-    units=['meta', 'db', 'freelist'],
+    units=['meta', 'db', 'freelist', 'open'],
     kani_quick=['layout'],
-    explanation='Header damage falls back: DBInner::meta returns exactly select_header (newest slot that is tagged META and whose checksum '
+    explanation='DBInner::open (unit open): on a file with one intact header opening fails only when the operating system refuses the lock or the mapping (never a rejection or panic derived from the other slot). Header damage falls back: DBInner::meta returns exactly select_header (newest slot that is tagged META and whose checksum '
                 'matches; current format first, then legacy) with the other slot ARBITRARY, never panics under that precondition (M3); '
                 'Meta::valid is hash == FNV-1a of the pinned 60 bytes (M1); one-byte changes of the hashed bytes change the hash '
                 '(M1-sens, proved by bit-vector + induction); pages freed by the newest commit sit in pending[tx] which allocate never touches (F1, F3).',
@@ -212,10 +212,22 @@ PROPS['C01'] = dict(
 )
 
 PENDING = 'not claimed yet in this build session: deciding units are not built (see DESIGN section 10)'
+PROPS['C13'] = dict(
+    level='other',
+    units=['open'],
+    explanation='SCOPED to the mechanism inside this code base; the exclusion itself is the operating system\'s. Proved on the real bodies of DBInner::open and OpenOptions::open: '
+                'the exclusive advisory lock is requested on the file handle BEFORE the file is mapped or read (obligation at the mmap call), a failed lock request returns Err (no database handle exists without the lock), '
+                'and the handle that holds the lock is the very handle stored in DBInner.file, i.e. the lock lives exactly as long as the last clone of the database. Opening an existing file writes nothing before the lock is held '
+                '(the trace of the kept handle equals the trace of the handle passed in).',
+    level_text='Unbounded proof of the lock-before-use discipline of one opener; NOT a proof of mutual exclusion between processes.',
+    level_note='Decides only what one process does. That two lock holders cannot coexist, that a second opener blocks and later sees the first one\'s commits, and every interleaving of processes are properties of flock(2) and of process schedules: outside any contract on this code (assumed: fs4::lock_exclusive returns Ok only with the lock held; the lock is released when the file description closes).',
+    assumptions=[A_TOOLS, 'fs4::FileExt::lock_exclusive returns Ok only when the exclusive advisory lock is held (prelude/openfile.rs); the lock belongs to the open file description and is released only when the handle is dropped', 'memmap2/mmap stand-in as in C16'],
+    not_covered=['mutual exclusion between processes and blocking behaviour (flock semantics)', 'every interleaving of open / initialise / close of several processes', 'create-if-missing of a not yet existing file happens before the lock (init_file uses create_new, so only one creator succeeds; not under a lock)', 'visibility of the first opener\'s commits to the second (C01/C02 of the reopened file)'],
+)
+
 NOT_APPLICABLE = {
     'C04': 'quantifies over thread schedules; Kani has no threads, Verus would need the code rewritten onto its permission types (a model) — DESIGN section 6',
     'C09': 'mutual exclusion/progress/deadlock-freedom are schedule and liveness properties of std::sync primitives; no contract within reach states them — DESIGN section 6',
-    'C13': 'quantifies over schedules of OS processes and flock semantics; a sequential contract cannot decide mutual exclusion — DESIGN section 6',
     'C14': 'quantifies over client programs and is decided by rustc borrow/Send checking of each program, not by contracts on jammdb bodies — DESIGN section 6',
 }
 for _p in []:
